@@ -105,7 +105,7 @@ def _covs(rng):
 def make_structure(rng, kind):
     lay = _layout(rng)
     covs = _covs(rng)
-    scale = float(10 ** rng.uniform(-8, 8)) if rng.random() < 0.3 else 1.0
+    scale = float(10 ** rng.uniform(-14, 14)) if rng.random() < 0.4 else 1.0
     rew = bool(rng.random() < 0.15)
 
     def ob(tag=True):
@@ -155,9 +155,9 @@ def analysis_numbers(x):
         if isinstance(y, pe.Obs):
             try:
                 y.gamma_method()
-                out.append(ratx(float(y.dvalue)))
+                out.append({'dv': ratx(float(y.dvalue)), 'scale': ratx(float(abs(y.value)) + max([float(np.max(np.abs(y.r_values[n]))) for n in y.r_values] + [0.0]))})
             except Exception:  # noqa: BLE001
-                out.append('0')
+                out.append({'dv': '0', 'scale': '0'})
         elif isinstance(y, pe.Corr):
             for it in y.content:
                 if it is not None:
